@@ -6,6 +6,7 @@ CONSTANTS
   CPLX = 1
   Ascii = TRUE
   PerLine = 2
+  RowOffset = 0
   WriterOnly = FALSE
   Export = TRUE
 INIT Init
